@@ -228,11 +228,11 @@ def solve_exact_cover(
         Result with solution (tuple of row indices) or list of solutions if find_all
     """
     if not matrix:
-        return Result((), 0, 0, 0)
+        return Result([()], 1, 0, 0) if find_all else Result((), 0, 0, 0)
 
     root, _, _ = _build_links(matrix, columns, secondary)
     if root is None:
-        return Result((), 0, 0, 0)
+        return Result([()], 1, 0, 0) if find_all else Result((), 0, 0, 0)
 
     solutions = []
     current = []
